@@ -15,16 +15,19 @@ func init() {
 			ID: "C24", Title: "Connection collisions leave at most one established session", Level: "other",
 			Technique:   "inhabited-case check of every type switch on the FSM state interface (case types vs. the dynamic types the constructors produce), truth table of the collision tie-break, guard/ordering checks of the collision path",
 			DesignRef:   "DESIGN.md §4 C24",
-			Decided:     "(1) every case of a type switch on a `state` value in package server names a type that some state constructor actually produces (pointer types): a case on a type no FSM ever holds is constantly false, which is how collision detection was dead; (2) shouldCeaseOnCollision compares the BGP identifiers and, exactly when they are equal, the AS numbers (16 valuations); (3) in collisionHandling an Established sibling makes the calling connection lose, an OpenConfirm sibling is ceased iff the tie-break says so and otherwise the caller loses; the caller's OPEN handling turns a lost collision into its own cease(); (4) every cease() of a state with a connection sends NOTIFICATION(Cease) before closing it; incoming connections get their own FSM appended to peer.fsms under fsmsMu.",
+			Decided:     "(1) every case of a type switch on a `state` value in package server names a type that some state constructor actually produces (pointer types): a case on a type no FSM ever holds is constantly false, which is how collision detection was dead; (2) shouldCeaseOnCollision compares the BGP identifiers and, exactly when they are equal, the AS numbers (16 valuations); (3) in collisionHandling an Established sibling makes the calling connection lose, an OpenConfirm sibling is ceased iff the tie-break says so and otherwise the caller loses; the caller's OPEN handling turns a lost collision into its own cease(); (3c) the Cease event cannot be dropped: FSM.cease hands it to the event loop on every path, and next to the send only a channel that is closed exclusively by a function deferred in FSM.run (the FSM has ended) may be waited for; (3d) every exit of FSM.run takes the FSM off peer.fsms first, so a collision check never meets an FSM whose event loop is gone; (4) every cease() of a state with a connection sends NOTIFICATION(Cease) before closing it; incoming connections get their own FSM appended to peer.fsms under fsmsMu.",
 			NotDecided:  "`at most one Established under every interleaving of two connections` is schedule-quantified and not decided; only the detection predicate, the tie-break and the cease path are.",
 			TrustedBase: stdTrusted,
 		},
 		Run: runC24,
 		Controls: []Control{
+			{Name: "ended-fsm-stays-listed", File: "protocols/bgp/server/fsm.go", Old: "\t\t\tfsm.peer.removeFSM(fsm)\n", New: "", Expect: "collision-path"},
 			{Name: "state-predicate-on-value-type", File: "protocols/bgp/server/peer.go", Old: "\tcase *establishedState:\n\t\treturn true", New: "\tcase establishedState:\n\t\treturn true", Expect: "state-switch-case-inhabited"},
 			{Name: "tie-break-ignores-as-on-equal-ids", File: "protocols/bgp/server/peer.go", Old: "\tif p.routerID == callingFSM.neighborID {\n\t\treturn p.localASN < callingFSM.peer.peerASN\n\t}\n", New: "", Expect: "collision-tie-break-table"},
 			{Name: "identifier-stored-after-collision-handling", File: "protocols/bgp/server/fsm_open_sent.go", Old: "\ts.fsm.neighborID = openMsg.BGPIdentifier\n\n\tif s.fsm.isBMP {", New: "\tif s.fsm.isBMP {\n\t\ts.fsm.neighborID = openMsg.BGPIdentifier", Expect: "collision-path"},
-			{Name: "cease-event-droppable", File: "protocols/bgp/server/fsm.go", Old: "\tfsm.eventCh <- Cease\n", New: "\tselect {\n\tcase fsm.eventCh <- Cease:\n\tdefault:\n\t}\n", Expect: "collision-path"},
+			{Name: "cease-event-droppable", File: "protocols/bgp/server/fsm.go", Old: "\tselect {\n\tcase fsm.eventCh <- e:\n\tcase <-fsm.doneCh:\n\t}\n", New: "\tselect {\n\tcase fsm.eventCh <- e:\n\tcase <-fsm.doneCh:\n\tdefault:\n\t}\n", Expect: "collision-path"},
+			{Name: "ended-signal-closed-early", File: "protocols/bgp/server/fsm_open_confirm.go", Old: "func (s *openConfirmState) holdTimerExpired() (state, string) {\n", New: "func (s *openConfirmState) holdTimerExpired() (state, string) {\n\ts.fsm.done()\n", Expect: "collision-path"},
+			{Name: "refactor-cease-sends-inline", Silent: true, File: "protocols/bgp/server/fsm.go", Old: "\tfsm.sendEvent(Cease)\n", New: "\tselect {\n\tcase <-fsm.doneCh:\n\tcase fsm.eventCh <- Cease:\n\t}\n"},
 			{Name: "cease-without-notification", File: "protocols/bgp/server/fsm_open_confirm.go", Old: "func (s *openConfirmState) cease() (state, string) {\n\ts.fsm.sendNotification(packet.Cease, 0)\n", New: "func (s *openConfirmState) cease() (state, string) {\n", Expect: "cease-notifies-before-close"},
 		},
 	})
@@ -301,27 +304,79 @@ func runC24(c *core.Ctx) {
 	}
 	// (3c) the Cease event for the losing connection cannot be dropped: FSM.cease sends on every path
 	if f := c.MustFunc(srv + ".(*FSM).cease"); f != nil {
-		evc := p.Field(srv, "FSM", "eventCh")
-		// go/cfg lists the communication of every select clause in the block before the select: a send that is one
-		// alternative of a select is not a send on every path
-		alt := map[ast.Node]bool{}
-		ast.Inspect(f.Decl.Body, func(nd ast.Node) bool {
-			if sel, ok := nd.(*ast.SelectStmt); ok && len(sel.Body.List) > 1 {
-				for _, cl := range sel.Body.List {
-					if cc := cl.(*ast.CommClause); cc.Comm != nil {
-						alt[cc.Comm] = true
-					}
-				}
-			}
-			return true
-		})
+		// the event is handed over by a send on the event channel — directly, or through a helper every path of which
+		// hands its parameter over; next to the send only "the FSM has ended" may be waited for (see deliveringSend)
+		direct := deliveringSend(c, f)
+		ceaseEv := p.Object(srv, "Cease")
 		send := func(nd ast.Node) bool {
-			ss, ok := nd.(*ast.SendStmt)
-			return ok && !alt[nd] && core.FieldOf(f.Pkg, ss.Chan) == evc && evc != nil
+			if direct(nd) {
+				return true
+			}
+			return core.NodeHas(nd, func(x ast.Node) bool {
+				call, ok := x.(*ast.CallExpr)
+				if !ok || len(call.Args) != 1 || !isConstObj(f, call.Args[0], ceaseEv) {
+					return false
+				}
+				g := p.FnOf(core.Callee(f.Pkg, call))
+				if g == nil || g.Decl.Body == nil {
+					return false
+				}
+				gate := deliveringSend(c, g)
+				paramSend := func(n ast.Node) bool {
+					ss, ok := n.(*ast.SendStmt)
+					return ok && gate(n) && isParamExpr(g, ss.Value)
+				}
+				rets, implicit := core.ExitsWithout(p.CFG(g), paramSend)
+				return len(rets) == 0 && !implicit
+			})
 		}
 		rets, implicit := core.ExitsWithout(p.CFG(f), send)
 		c.Check(len(rets) == 0 && !implicit, "collision-path", f.Name()+" delivers the Cease event on every path", f.Decl.Pos(),
 			"FSM.cease can return without having sent Cease on the FSM's event channel (non-blocking send): the losing connection of a collision keeps running and both connections can reach Established")
+	}
+
+	// (3d) an FSM that has ended leaves the peer's list: after FSM.run returned nobody reads the event channel and the last
+	// published state stays what it was (OpenConfirm for the loser of a collision) — a later collision check would
+	// send Cease to it (blocking for ever with the list lock held) or report a collision against a dead connection
+	if run := c.MustFunc(srv + ".(*FSM).run"); run != nil {
+		fsmsF := p.Field(srv, "peer", "fsms")
+		removes := func(nd ast.Node) bool {
+			return core.NodeHas(nd, func(x ast.Node) bool {
+				call, ok := x.(*ast.CallExpr)
+				if !ok {
+					return false
+				}
+				g := p.FnOf(core.Callee(run.Pkg, call))
+				if g == nil || g.Decl.Body == nil {
+					return false
+				}
+				passesSelf := false
+				for _, a := range call.Args {
+					if core.ObjOf(run.Pkg, a) == recvObj(run) && recvObj(run) != nil {
+						passesSelf = true
+					}
+				}
+				writes := false
+				ast.Inspect(g.Decl.Body, func(y ast.Node) bool {
+					if as, ok := y.(*ast.AssignStmt); ok {
+						for _, l := range as.Lhs {
+							if core.FieldOf(g.Pkg, l) == fsmsF && fsmsF != nil {
+								writes = true
+							}
+						}
+					}
+					return true
+				})
+				return passesSelf && writes
+			})
+		}
+		rets, implicit := core.ExitsWithout(p.CFG(run), removes)
+		pos := run.Decl.Pos()
+		if len(rets) > 0 {
+			pos = rets[0].Pos()
+		}
+		c.Check(len(rets) == 0 && !implicit, "collision-path", run.Name()+" takes the FSM off the peer's list before it ends", pos,
+			"FSM.run can return (the FSM ends for good, e.g. as the loser of a collision) while the FSM stays in peer.fsms with its last published state: the next collision check sends Cease to it and blocks for ever holding the list lock, or keeps refusing new connections; peer.stop blocks on it as well")
 	}
 
 	// (4) cease sends NOTIFICATION(Cease) before Close
